@@ -597,3 +597,98 @@ func init() {
 	reg("H_c02_tree", H_c02_tree)
 	reg("H_c02_spec", H_c02_spec)
 }
+
+// ---------------------------------------------------------------------------------------------
+// C02 part A': indentation written with tabs. A chain of container markers ('>' block quote,
+// '-' bullet item) separated by single spaces, then a run of spaces/tabs, then two symbolic letters.
+// The prescribed structure follows from column arithmetic alone (tab stops every 4 columns): the last
+// marker takes one column of the whitespace; 4 or more remaining columns make an indented code block
+// whose content starts with the columns beyond 4, fewer make a paragraph.
+// ---------------------------------------------------------------------------------------------
+
+func H_c02_tabs() {
+	m := WarmMD("core||unsafe,xhtml")
+	markers := vp.ParamStr("markers", ">")
+	ws := vp.ParamStr("ws", "\t")
+	a, b := vp.Byte("t"), vp.Byte("t")
+	vp.Assume(vp.And(vp.InRange(a, 'a', 'z'), vp.InRange(b, 'a', 'z')))
+	var md []byte
+	col := 0
+	for i := 0; i < len(markers); i++ {
+		md = append(md, markers[i])
+		col++
+		if i+1 < len(markers) {
+			md = append(md, ' ')
+			col++
+		}
+	}
+	start := col
+	for i := 0; i < len(ws); i++ {
+		md = append(md, ws[i])
+		if ws[i] == '\t' {
+			col += 4 - col%4
+		} else {
+			col++
+		}
+	}
+	w := col - start
+	md = append(md, a, b, '\n')
+	last := markers[len(markers)-1]
+	var html, tail []byte
+	for i := 0; i < len(markers); i++ {
+		if i == len(markers)-1 && w == 0 {
+			break // no whitespace behind the last marker: it is not a marker ('>' still is)
+		}
+		if markers[i] == '>' {
+			html = append(html, "<blockquote>\n"...)
+			tail = append([]byte("</blockquote>\n"), tail...)
+		} else {
+			html = append(html, "<ul>\n<li>"...)
+			tail = append([]byte("</li>\n</ul>\n"), tail...)
+		}
+	}
+	switch {
+	case w == 0 && last == '>':
+		html = append(append(append(html, "<blockquote>\n<p>"...), a, b), "</p>\n</blockquote>\n"...)
+	case w == 0:
+		html = append(append(append(html, "<p>-"...), a, b), "</p>\n"...)
+	case w-1 >= 4:
+		html = append(html, "<pre><code>"...)
+		// whitespace beyond the 1+4 consumed columns stays in the code: a tab straddling the boundary
+		// contributes its remaining columns as spaces, later characters are kept verbatim
+		bound := start + 1 + 4
+		c0 := start
+		for i := 0; i < len(ws); i++ {
+			c1 := c0 + 1
+			if ws[i] == '\t' {
+				c1 = c0 + 4 - c0%4
+			}
+			switch {
+			case c1 <= bound:
+			case c0 < bound:
+				for k := 0; k < c1-bound; k++ {
+					html = append(html, ' ')
+				}
+			default:
+				html = append(html, ws[i])
+			}
+			c0 = c1
+		}
+		html = append(append(html, a, b), "\n</code></pre>\n"...)
+	case last == '>':
+		html = append(append(append(html, "<p>"...), a, b), "</p>\n"...)
+	default:
+		html = append(html, a, b)
+	}
+	html = append(html, tail...)
+	vp.Observe("src", md)
+	vp.Observe("want", html)
+	var o bytes.Buffer
+	e := m.Convert(md, &o)
+	vp.Assert(e == nil, "conversion returned an error")
+	vp.Observe("got", o.Bytes())
+	vp.Assert(vp.EqBytes(normHTML(o.Bytes()), normHTML(html)), "indentation written with tabs does not give the structure its columns prescribe")
+	vp.Reach("done")
+}
+
+func init() { reg("H_c02_tabs", H_c02_tabs) }
